@@ -117,7 +117,7 @@ def as_pipeline(obj):
     return Pipeline() + obj
 
 
-DICTS = [{}, {"P": 5}, {"P": 5, "Q": 6}]
+DICTS = [{}, {"P": 5}, {"P": 5, "Q": 6}, {"P": 1}, {"P": True}, {"P": 1, "N": {"K": 1}}, {"P": 1, "N": {"K": 2}}]  # consecutive equal-but-different dictionaries too
 INPUTS = [1, "v"]
 
 
@@ -354,6 +354,9 @@ def helper_rows():
     row("instance_of", lambda A: F.instance_of(int, str), [1, "a", 1.5, None], lambda x, a: isinstance(x, (int, str)))
     row("all", lambda A: F.all(F.gt(A("p", 0)), F.lt(A("q", 3))), [0, 1, 2, 3], lambda x, a: x > a["p"] and x < a["q"], ("p", "q"))
     row("any", lambda A: F.any(F.lt(A("p", 1)), F.gt(A("q", 2))), [0, 1, 2, 3], lambda x, a: x < a["p"] or x > a["q"], ("p", "q"))
+    # short-circuit: a later predicate is not even called once an earlier one has decided
+    row("all", lambda A: F.all(F.instance_of(int), F.gt(A("p", 0))), [1, -1, "abc", None, [3]], lambda x, a: isinstance(x, int) and x > a["p"], ("p",))
+    row("any", lambda A: F.any(F.is_none, F.lt(A("p", 0))), [None, -1, 1], lambda x, a: x is None or x < a["p"], ("p",))
     row("invert", lambda A: F.invert(is1), [1, 2], lambda x, a: not is1(x))
     row("invert", lambda A: F.invert(), [0, 1, "", "a"], lambda x, a: not x)
     for nm, op in (("eq", lambda x, v: x == v), ("ne", lambda x, v: x != v), ("gt", lambda x, v: x > v),
